@@ -18,3 +18,17 @@ class TiedLoss(MinkowskiLoss):
         if v / 10.0**e >= 9.0:
             return float("nan")
         return float(e)
+
+
+class SentinelLoss(MinkowskiLoss):
+    """Minkowski distance, except that two sentinel distances stand for evaluations that produced no finite loss."""
+
+    INF, NAN = 1234.5, 4321.5
+
+    def compute_loss(self, sim_data_ensemble, real_data):
+        v = float(super().compute_loss(sim_data_ensemble, real_data))
+        if v == self.INF:
+            return float("inf")
+        if v == self.NAN:
+            return float("nan")
+        return v
